@@ -33,14 +33,33 @@ func c06E8(r *core.R) {
 		// the stored error: the error-typed field of Scanner that Err returns
 		var errField *types.Var
 		if _, st := structType(pk, "Scanner"); st != nil {
+			var cands []*types.Var
 			for i := 0; i < st.NumFields(); i++ {
 				if isErrorType(st.Field(i).Type()) {
-					if errField != nil {
-						errField = nil
-						break
-					}
-					errField = st.Field(i)
+					cands = append(cands, st.Field(i))
 				}
+			}
+			// with several error fields: the one Err (or what it calls) reads
+			if len(cands) > 1 {
+				var read []*types.Var
+				for _, cf := range cands {
+					used := false
+					for _, g := range c01Reachable(r.P, fi) {
+						ast.Inspect(g.Decl.Body, func(y ast.Node) bool {
+							if sel, ok := y.(*ast.SelectorExpr); ok && fieldOf(info, sel) == cf {
+								used = true
+							}
+							return !used
+						})
+					}
+					if used {
+						read = append(read, cf)
+					}
+				}
+				cands = read
+			}
+			if len(cands) == 1 {
+				errField = cands[0]
 			}
 		}
 		if errField == nil {
